@@ -94,6 +94,19 @@ theorem dedup_by_refines (v : Vec) (hv : v.WF) (x : Id) (xs : List Id) (hx : v.a
   have := refines_of_eq heq (by simp at hlen hl ⊢; omega)
   simpa using this
 
+/-- WHICH pairs `dedup_by(same_bucket)` hands to the callback: exactly those `Vec::dedup_by` does — every element
+    after the first is compared with the last element RETAINED so far (not with its predecessor in the original
+    sequence); for every oracle (incl. panics) and every set of panicking destructors -/
+theorem dedup_by_calls (bombs : List Id) (v : Vec) (hv : v.WF) (x : Id) (xs : List Id) (hx : v.abs = x :: xs) (o : List Outcome) :
+    dedupCalls bombs v o = dedupCallsSpec bombs x xs o := by
+  have ⟨hs, hl⟩ := hv.slots_eq
+  rw [hx] at hs hl
+  exact dedupCalls_eq bombs v x xs o hs hl
+
+/-- `[1,2,3]`, the callback answers "same" for the first call: 2 is removed and 3 is then compared with 1 (the last
+    retained element), not with 2 -/
+example : dedupCalls [] (Vec.mk' [1, 2, 3] 0) [.ret 1, .ret 0] = [(2, 1), (3, 1)] := by decide
+
 /-- `dedup_by_key(key)` with keys `ks` (two per comparison: `key(cur)`, `key(prev)`): as `dedup_by` with the
     answers `key(cur) == key(prev)` -/
 theorem dedup_by_key_refines (v : Vec) (hv : v.WF) (x : Id) (xs : List Id) (hx : v.abs = x :: xs)
@@ -200,15 +213,27 @@ theorem reserve_fixed (env : Env) (v : Vec) (n : Nat) (hk : env.kind = .fixed) :
     reserve env v n = if n > v.cap - v.len then none else some v :=
   Coll.reserve_fixed env v n hk
 
-/-- `BumpVec`: a reservation is never refused (allocation failure is not a model outcome: it aborts / errors in C07) -/
-theorem reserve_bump (env : Env) (v : Vec) (n : Nat) (hk : env.kind = .bump) : (reserve env v n).isSome = true := by
+/-- `BumpVec`: a reservation is refused EXACTLY when it does not fit and the capacity it would grow to has no
+    layout ("capacity overflow", `maxCap`); allocation failure is not a model outcome (it aborts / errors in C07) -/
+theorem reserve_bump_iff (env : Env) (v : Vec) (n : Nat) (hk : env.kind = .bump) :
+    (reserve env v n).isSome = (decide (n ≤ v.cap - v.len) || env.fits (max (max (v.cap * 2) (v.len + n)) env.minCap)) := by
   unfold reserve growAmortized
-  split <;> simp [hk]
+  by_cases h : n > v.cap - v.len
+  · have h' : ¬ n ≤ v.cap - v.len := by omega
+    simp only [h, ↓reduceIte, hk, h', decide_false, Bool.false_or]
+    cases env.fits (max (max (v.cap * 2) (v.len + n)) env.minCap) <;> simp
+  · have h' : n ≤ v.cap - v.len := by omega
+    simp [h, h']
 
-theorem reserveOne_bump (env : Env) (v : Vec) (hk : env.kind = .bump) : roomOne env v = true := by
+/-- … in an unbounded address space (`maxCap = none`): never -/
+theorem reserve_bump (env : Env) (v : Vec) (n : Nat) (hk : env.kind = .bump) (hm : env.maxCap = none) :
+    (reserve env v n).isSome = true := by
+  rw [reserve_bump_iff env v n hk]; simp [Env.fits, hm]
+
+theorem reserveOne_bump (env : Env) (v : Vec) (hk : env.kind = .bump) (hm : env.maxCap = none) : roomOne env v = true := by
   unfold roomOne reserveOne growAmortized
   simp only [hk]
-  split <;> simp
+  split <;> simp [Env.fits, hm]
 
 theorem reserveOne_fixed (env : Env) (v : Vec) (hk : env.kind = .fixed) : roomOne env v = decide (v.len < v.cap) := by
   unfold roomOne reserveOne
@@ -217,14 +242,14 @@ theorem reserveOne_fixed (env : Env) (v : Vec) (hk : env.kind = .fixed) : roomOn
 
 /-- `reserve_exact(additional)` on a `BumpVec`: never refused, the buffer is untouched when it fits,
     otherwise the capacity becomes EXACTLY `len + additional` -/
-theorem reserve_exact_bump (env : Env) (v : Vec) (hv : v.WF) (n : Nat) (hk : env.kind = .bump) :
+theorem reserve_exact_bump (env : Env) (v : Vec) (hv : v.WF) (n : Nat) (hk : env.kind = .bump) (hm : env.maxCap = none) :
     ∃ v', reserveExact env v n = some v' ∧ v'.abs = v.abs ∧ v'.len = v.len ∧
       (v.len + n ≤ v.cap → v' = v) ∧ (v.len + n > v.cap → v'.cap = v.len + n) := by
   have ⟨hs, hl⟩ := hv.slots_eq
   have hcap := hv.len_le_cap
   unfold reserveExact
   by_cases h : n > v.cap - v.len
-  · simp only [h, ↓reduceIte, hk]
+  · simp only [h, ↓reduceIte, hk, Env.fits, hm]
     have ⟨g, hc⟩ := growTo_grows hs hl (v.len + n)
     refine ⟨_, rfl, Vec.WF.abs_eq g.slots (by rw [g.len]; exact hl), g.len, by omega, fun _ => by rw [hc]; omega⟩
   · simp only [h, ↓reduceIte]
@@ -295,14 +320,14 @@ theorem shrink_to_keeps (env : Env) (v : Vec) (hv : v.WF) (m : Nat) :
 /-- `Extend::extend(iter)` on a `BumpVec` behaves like `Vec::extend`: every item is appended in order, whatever
     `size_hint` the source reports — unless the up-front reservation for the CLAIMED length overflows: then the
     call panics and the vector is exactly as before -/
-theorem extend_refines (env : Env) (hk : env.kind = .bump) (v : Vec) (hv : v.WF) (src : List Id) (hint : Nat)
+theorem extend_refines (env : Env) (hk : env.kind = .bump) (hm : env.maxCap = none) (v : Vec) (hv : v.WF) (src : List Id) (hint : Nat)
     (lie : Option Nat) (maxCap : Nat) :
     ∃ r, extendIter env v src hint lie maxCap = .ok r ∧
       (if capOverflow env maxCap v v.len (spliceLower hint lie src.length) then
          r.vec.abs = v.abs ∧ r.vec.len = v.len ∧ r.vec.cap = v.cap ∧ r.exit = .panic false
        else r.vec.abs = v.abs ++ src ∧ r.exit = .ret () ∧ r.vec.len ≤ r.vec.cap ∧ v.cap ≤ r.vec.cap) := by
   have ⟨hs, hl⟩ := hv.slots_eq
-  have h := extendIter_bump env hk v v.abs src hint lie maxCap hs hl
+  have h := extendIter_bump env hk hm v v.abs src hint lie maxCap hs hl
   by_cases hov : capOverflow env maxCap v v.len (spliceLower hint lie src.length) = true
   · simp only [hov, ↓reduceIte] at h ⊢
     exact ⟨_, h, rfl, rfl, rfl, rfl⟩
@@ -778,7 +803,7 @@ theorem rev_append_refines (env : Env) (v other : Vec) (hv : v.RWF) (ho : other.
     long as no reservation for a CLAIMED count overflows; when one does (`spliceWritten … = (w, true)`, only a
     lying source gets there) the call panics and the vector is `xs[..start] ++ w ++ xs[end..]` with `w` the
     prefix of `src` written so far — like `Vec::splice` after a panic inside its `Splice::drop` -/
-theorem splice_refines (env : Env) (hk : env.kind = .bump) (hb : env.bombs = []) (v : Vec) (hv : v.WF) (start end_ : Nat)
+theorem splice_refines (env : Env) (hk : env.kind = .bump) (hm : env.maxCap = none) (hb : env.bombs = []) (v : Vec) (hv : v.WF) (start end_ : Nat)
     (src : List Id) (hint : Nat) (lie : Option Nat) (maxCap : Nat) (script : List Pull) :
     ∃ r, splice env v start end_ src hint lie maxCap script = .ok r ∧ r.vec.len ≤ r.vec.cap ∧ v.cap ≤ r.vec.cap ∧
       (if start > end_ ∨ end_ > v.len then r.vec.abs = v.abs ∧ r.exit = .panic false
@@ -787,7 +812,7 @@ theorem splice_refines (env : Env) (hk : env.kind = .bump) (hb : env.bombs = [])
          r.exit = (if (spliceWritten (capsOf env v hint lie maxCap) start end_ v.len src).2 then .panic false
                    else .ret (pullsSpec ((v.abs.take end_).drop start) script).1)) := by
   have ⟨hs, hl⟩ := hv.slots_eq
-  obtain ⟨v', e, h, hc⟩ := splice_holds env hk v v.abs start end_ src hint lie maxCap script hs hl
+  obtain ⟨v', e, h, hc⟩ := splice_holds env hk hm v v.abs start end_ src hint lie maxCap script hs hl
   have habs : v'.abs = (spliceSpec env.bombs (capsOf env v hint lie maxCap) v.abs start end_ src script).final :=
     Vec.WF.abs_eq h.slots h.len
   have hle : v'.len ≤ v'.cap := by
@@ -951,7 +976,7 @@ theorem history_refines (env : Env) (ops : List Op) : ∀ (v : Vec), v.WF → (v
 
 /-- a `BumpVec` never refuses a reservation (allocation failure aborts / is C07's), so its histories
     refine the list-level run with every reservation granted -/
-theorem roomsRun_bump (env : Env) (hk : env.kind = .bump) (ops : List Op) : ∀ v : Vec,
+theorem roomsRun_bump (env : Env) (hk : env.kind = .bump) (hm : env.maxCap = none) (ops : List Op) : ∀ v : Vec,
     roomsRun env v ops = ops.map fun _ => true := by
   induction ops with
   | nil => intro v; rfl
@@ -959,9 +984,9 @@ theorem roomsRun_bump (env : Env) (hk : env.kind = .bump) (ops : List Op) : ∀ 
     intro v
     simp only [roomsRun, List.map_cons, ih]
     congr 1
-    have h1 := reserveOne_bump env v hk
+    have h1 := reserveOne_bump env v hk hm
     unfold roomOne at h1
-    cases op <;> simp [roomOf, h1, reserve_bump env v _ hk]
+    cases op <;> simp [roomOf, h1, reserve_bump env v _ hk hm]
 
 /-- the lengths never exceed the capacity along a history, and the capacity never shrinks below the length -/
 theorem history_len_le_cap (env : Env) (ops : List Op) (v : Vec) (hv : v.WF)
